@@ -100,8 +100,9 @@ func (b *Bytes) Set(src Blob, destStart int64) (n int, err error) {
 	if destStart > int64(b.Len()) || (destStart == 0 && b.Len() == 0 && src.Len() > 0) {
 		return 0, fmt.Errorf("Offset out of bounds: %d", destStart)
 	}
+	srcBytes := src.Bytes() // read the source first: it may be this blob or a view sharing this blob's mutex
 	b.mu.Lock()
-	n = copy(b.bytes[destStart:], src.Bytes())
+	n = copy(b.bytes[destStart:], srcBytes)
 	b.mu.Unlock()
 	return n, nil
 }
